@@ -96,6 +96,7 @@ class DealMonitor(Monitor):
 
     def on_begin(self, ctx):
         self.cur = None
+        self.extra_board = 0
         self.done = 0
         ctx.last_client = None
 
@@ -136,6 +137,13 @@ class DealMonitor(Monitor):
             self._finish(ctx, 'next street started')
         if self.cur is None:
             self.cur = StreetRec(s, already)
+            if self.cur.fallback:
+                ctx.data['c10_fallback_streets'] = ctx.data.get(
+                    'c10_fallback_streets', 0) + 1
+                # community cards dealt instead of hole cards stay on the
+                # boards for the rest of the hand
+                self.extra_board = getattr(self, 'extra_board', 0) + len(
+                    s.street.hole_dealing_statuses)
             if len(self.cur.live) < s.player_count:
                 ctx.counters['folded_player_streets'] += 1
             if s.starting_board_count > 1 and self.cur.need_board:
@@ -149,8 +157,13 @@ class DealMonitor(Monitor):
             return
         exp = sum(st.board_dealing_count
                   for st in s.streets[:s.street_index + 1])
-        if self.cur is not None and getattr(self.cur, 'fallback', False):
-            return          # stud fallback: a community card replaces holes
+        if self.cur is not None and getattr(self.cur, 'fallback', False) \
+                and not self.cur.complete():
+            return
+        exp += getattr(self, 'extra_board', 0)
+        if s.runout_count and s.runout_count > 1 and \
+                getattr(self, 'extra_board', 0):
+            return          # (fallback cards repeated per run-out: not judged)
         got = [len(list(s.get_board_cards(j))) for j in s.board_indices]
         ctx.counters['board_sizes_checked'] += 1
         if any(g != exp for g in got) or (exp and not got):
@@ -406,6 +419,13 @@ def make_monitors():
 
 def gen_kwargs(rng):
     k = rng.random()
+    if k < 0.06:
+        # nine-handed seven-card games: the deck runs out a street earlier
+        return dict(
+            games=gen.STUD_GAMES, customs=('studboard',), p_custom=0.4,
+            chip_types=('int',), strict_p=1.0, min_n=9, max_n=9,
+            auto_styles=('any', 'none', 'typical', 'all'),
+            hostile_chips=False)
     if k < 0.2:
         games, min_n = gen.STUD_GAMES, 7
     elif k < 0.4:
@@ -423,12 +443,13 @@ def gen_kwargs(rng):
 def pol_tweak(pol, cfg, rng):
     stud = cfg.get('game') in gen.STUD_GAMES or cfg.get('template') in (
         'stud5', 'studboard', 'openstud')
-    if stud and cfg['n'] >= 7 and rng.random() < 0.35:
+    if stud and cfg['n'] >= 7 and rng.random() < (
+            0.7 if cfg['n'] == 9 else 0.35):
         # mixed information: one or two seats with unrecorded down cards and
         # unknown burns; the known cards can still exhaust the deck
         pol['deal_override'] = 'mixedunknown'
         pol['unknown_seats'] = rng.sample(range(cfg['n']),
-                                          rng.choice([1, 1, 2]))
+                                          rng.choice([0, 0, 1, 1, 2]))
         cfg['autos'] = [a for a in cfg['autos']
                         if a not in ('HOLE_DEALING', 'CARD_BURNING',
                                      'HOLE_CARDS_SHOWING_OR_MUCKING')]
@@ -448,11 +469,20 @@ def nontrivial(ctx):
     return 'two-streets' in ctx.tags
 
 
+def classify(ctx, v):
+    st = ctx.state
+    if st is not None and 'boards hold' in v['what'] and \
+            ctx.data.get('c10_fallback_streets', 0) >= 1 and \
+            any(len(row) > st.board_count for row in st.board_cards):
+        return 'stud_fallback_card_shares_a_slot'
+    return None
+
+
 def run_shard(seed, shard, of, tier, deadline):
     res = hist.run_history_shard(
         PROP, seed, shard, of, tier, deadline, cases=CASES,
         gen_kwargs=gen_kwargs, make_monitors=make_monitors,
-        nontrivial=nontrivial, pol_tweak=pol_tweak)
+        nontrivial=nontrivial, pol_tweak=pol_tweak, classify=classify)
     probe_street_validation(res)
     return res
 
@@ -463,4 +493,4 @@ def replay(payload):
         res = Shard()
         probe_street_validation(res)
         return [{'what': v['what'], 'kf': None} for v in res.violations]
-    return hist.replay_history(payload, make_monitors, PROP)
+    return hist.replay_history(payload, make_monitors, PROP, classify)
